@@ -241,6 +241,20 @@ loop:
 	w.Emit(end)
 }
 
+// blankRuns: other data made only of white space (line breaks after every frame, as a logger or a caster adds them, blanks,
+// tabs, form feed, the UTF-8 non-breaking space and next-line characters) between, before and after frames: data like any other
+func blankRuns(rng *rand.Rand, run func([]byte, string)) {
+	for _, ws := range [][]byte{[]byte("\r\n"), []byte("\n"), []byte(" "), []byte("\t\t"), []byte("  \r\n \x0b\x0c"), {0xc2, 0xa0}, {0xc2, 0x85}, {0x00}, {0x00, 0x00, 0x00}} {
+		f1, f2, f3 := gen.Frame(rng, 1005, 19, 0), gen.Frame(rng, 1077, 24, 0), gen.Frame(rng, 1230, 8, 0)
+		run(gen.Cat(f1, ws, f2, ws, f3), fmt.Sprintf("blank run %x after every frame but the last", ws))
+		run(gen.Cat(ws, f1, f2, ws), fmt.Sprintf("blank run %x first and last", ws))
+	}
+	// other data that ends with bytes above 0x7f (binary protocols, broken UTF-8) directly in front of a frame
+	for _, tail := range [][]byte{{0xff}, {0x9c}, {0xb5, 0x62, 0x01, 0xff, 0xfe}, {0xef, 0xbf, 0xbd}, {0x41, 0xe2, 0x82}, {0x80, 0x80, 0x80}} {
+		run(gen.Cat(gen.Frame(rng, 1005, 19, 0), []byte("$GN"), tail, gen.Frame(rng, 1074, 12, 0), tail, gen.Frame(rng, 1230, 8, 0)), fmt.Sprintf("other data ending in %x before a frame", tail))
+	}
+}
+
 // longStall: the consumer takes the first message and then nothing for longer than any plausible internal time-out
 // (5.5 s, 12 s in the thorough tier) while the framer is offering the next one: every message still arrives, in order
 func longStall(rng *rand.Rand, run func([]byte, string), scale int) {
@@ -565,6 +579,7 @@ func framer(args []string) {
 
 		if !corrupt {
 			longStall(rng, run, scale)
+			blankRuns(rng, run)
 		}
 
 	case "c02":
@@ -660,6 +675,7 @@ func framer(args []string) {
 			run(s, "consumer-stall")
 		}
 		longStall(rng, run, scale)
+		blankRuns(rng, run)
 		// the producer goes quiet for 0.6 s in the middle of the stream
 		for k := 0; k < 2*scale; k++ {
 			s := gen.Cat(gen.Frame(rng, 1005, 19, 0), gen.Junk(rng, 2, 1), gen.Frame(rng, 1077, 30, 0), []byte{0xd3, 0})
